@@ -81,7 +81,8 @@ struct Sched {
     enum St { RUN, WAITM, FIN } st[MAXT];
     void *waitm[MAXT];
     int cur = -1;
-    bool active = false, leak = false, freerun = false;
+    bool active = false, leak = false, freerun = false, leak_at_exit = false;
+    int depth[MAXT] = {0};                       // mutex acquisitions minus releases per thread
     // choices
     std::vector<int> forced;             // DFS prefix (empty in random mode)
     Src *rnd = nullptr; int preempt_num = 1, preempt_den = 3;
@@ -145,16 +146,17 @@ int decide2(int prob_num, int prob_den) {
 }
 int hook_trylock(void *m, int (*real)(void *)) {
     if (!S.active || t_id < 0) return real(m);
-    if (S.burst[t_id] > 0) { int r = real(m); if (r != 0) S.waitm[t_id] = m; else S.burst[t_id] = 0; return r; }   // spinning: no other thread gets to run
+    if (S.burst[t_id] > 0) { int r = real(m); if (r != 0) S.waitm[t_id] = m; else { S.burst[t_id] = 0; S.depth[t_id]++; } return r; }   // spinning: no other thread gets to run
     yield_point();
     int r = real(m);
-    if (r != 0) S.waitm[t_id] = m;
+    if (r != 0) S.waitm[t_id] = m; else S.depth[t_id]++;
     return r;
 }
 int hook_unlock(void *m, int (*real)(void *)) {
     if (!S.active || t_id < 0) return real(m);
     int r = real(m);
     if (r != 0) return r;                      // e.g. the "force to unlock" attempt of a thread that does not own the mutex
+    S.depth[t_id]--;
     for (int i = 0; i < S.n; i++) if (S.st[i] == Sched::WAITM && S.waitm[i] == m) S.st[i] = Sched::RUN;
     yield_point();
     return r;
@@ -305,8 +307,8 @@ void execute(const Prog &p, Exec &ex) {
     if (!ex.cont) throw CaseStop{"constructor failed"};
     // initial elements, sequentially
     { Model m; m.kind = p.kind; for (size_t i = 0; i < p.init.size(); i++) { Op o; o.code = 0; o.key = "k" + std::to_string(i); o.val = p.init[i]; do_op(p, ex.cont, o); } }
-    S.n = (int)p.thr.size(); S.decisions.clear(); S.cur_runnable_at.clear(); S.preemptions = 0; S.preempt_in_op = 0; S.clock = 0; S.leak = false; S.freerun = false;
-    S.bursts_used = 0; for (int i = 0; i < MAXT; i++) S.burst[i] = 0;
+    S.n = (int)p.thr.size(); S.decisions.clear(); S.cur_runnable_at.clear(); S.preemptions = 0; S.preempt_in_op = 0; S.clock = 0; S.leak = false; S.freerun = false; S.leak_at_exit = false;
+    S.bursts_used = 0; for (int i = 0; i < MAXT; i++) { S.burst[i] = 0; S.depth[i] = 0; }
     sem_init(&S.done, 0, 0);
     for (int i = 0; i < S.n; i++) { sem_init(&S.sem[i], 0, 0); S.st[i] = p.thr[(size_t)i].empty() ? Sched::FIN : Sched::RUN; S.waitm[i] = nullptr; S.in_op[i] = false; }
     g_ex = &ex;
@@ -327,6 +329,9 @@ void execute(const Prog &p, Exec &ex) {
     }
     S.active = false;
     vf_hook_trylock = nullptr; vf_hook_unlock = nullptr; vf_hook_usleep = nullptr;
+    // a thread that finished all its operations and still holds the mutex (more acquisitions than
+    // releases) has leaked it, even if no other thread happened to wait for it afterwards
+    for (int i = 0; i < S.n; i++) if (S.depth[i] > 0) { S.leak = true; S.leak_at_exit = true; }
     if (S.leak) { ex.final_contents = "<not read: the container lock is held by a finished thread>"; ex.cont = nullptr; }   // the object is abandoned: releasing it would wait for the lock
     else { ex.final_contents = contents_of(p, ex.cont); destroy(p, ex.cont); ex.cont = nullptr; }
     for (int i = 0; i < S.n; i++) sem_destroy(&S.sem[i]);
@@ -361,7 +366,7 @@ std::string describe(const Prog &p, const Exec &ex) {
     return s;
 }
 void verdict(Ctx &c, const Prog &p, const Exec &ex) {
-    if (S.leak) c.fail(LIN | LOCK, (std::string("conc:lock-leaked:") + kname(p.kind)).c_str(), "all remaining threads wait for the container lock although no thread is inside an operation that could release it: %s", describe(p, ex).c_str());
+    if (S.leak) c.fail(LIN | LOCK, (std::string("conc:lock-leaked:") + kname(p.kind)).c_str(), "%s: %s", S.leak_at_exit ? "a thread finished its operations still holding the container lock (more acquisitions than releases)" : "all remaining threads wait for the container lock although no thread is inside an operation that could release it", describe(p, ex).c_str());
     Model m; m.kind = p.kind; m.unique = p.unique; m.limit = p.limit;
     for (size_t i = 0; i < p.init.size(); i++) { Op o; o.code = 0; o.key = "k" + std::to_string(i); o.val = p.kind <= K_LIST ? pad4(p.init[i]) : p.init[i]; m.apply(o); }
     std::vector<bool> done(ex.hist.size(), false);
